@@ -179,6 +179,45 @@ fn log_reject(tr: &mut Trace, kind: &str, bytes: &[u8]) {
     }
 }
 
+/// One CRC-valid input for the decoder: `body` is a frame without its CRC; the CRC of the real crc::compute is
+/// appended (that function is bound to the polynomial by CrcSyn and by the Codec lines) and the outcome of the real
+/// Frame::read is logged next to the body.  MonCodec compares it with Decode(body) of Codec.tla.
+fn log_parse(tr: &mut Trace, src: &str, body: &[u8]) {
+    if body.is_empty() || body.len() > 1468 {
+        return;
+    }
+    let mut full = body.to_vec();
+    full.extend_from_slice(&[0, 0, 0, 0]);
+    fix_crc(&mut full);
+    let hang = json!({"ev": "Ret", "ep": "codec", "call": "read", "outcome": "hang", "msg": "no return", "file": "", "t": 0}).to_string();
+    let r = guarded(&hang, || uv::Frame::read(&full));
+    match r {
+        Ok(parsed) => {
+            let fj = match &parsed { Some(f) => frame_to_json(f), None => json!({"t": "REJECT"}) };
+            tr.line(json!({"ev": "Parse", "src": src, "body": body.to_vec(), "parsed": parsed.is_some(), "frame": fj}));
+        }
+        Err(oc) => tr.line(json!({"ev": "Ret", "ep": "codec", "call": "read", "outcome": "panic", "msg": oc.msg, "file": oc.file, "t": 0, "kind": src})),
+    }
+}
+
+/// Malformed and field-mutated encodings enumerated by TLC from MC_Codec.tla (one {"body": [...]} per line), lines
+/// start .. start + runs of the file.
+pub fn run_mutants(tr: &mut Trace, path: &str, start: u64, runs: u64) {
+    tr.line(json!({"ev": "Reset", "run": start, "seed": 0, "driver": "codec", "profile": "mutants"}));
+    let text = std::fs::read_to_string(path).unwrap_or_default();
+    let mut n = 0;
+    for line in text.lines().skip(start as usize).take(runs as usize) {
+        if let Ok(v) = serde_json::from_str::<Value>(line) {
+            if let Some(a) = v.get("body").and_then(|b| b.as_array()) {
+                let body: Vec<u8> = a.iter().map(|x| x.as_u64().unwrap_or(0) as u8).collect();
+                log_parse(tr, "mutant", &body);
+                n += 1;
+            }
+        }
+    }
+    tr.line(json!({"ev": "End", "run": start, "dead": false, "calls": n}));
+}
+
 pub fn run_codec(tr: &mut Trace, run: u64, seed: u64, vectors: Option<&str>) {
     let mut r = Rng::new(seed);
     tr.line(json!({"ev": "Reset", "run": run, "seed": seed as i64 & 0x3FFFFFFF, "driver": "codec", "profile": if vectors.is_some() { "vectors" } else { "random" }}));
@@ -210,6 +249,7 @@ pub fn run_codec(tr: &mut Trace, run: u64, seed: u64, vectors: Option<&str>) {
             b.drain(n - 4 - cut..n - 4);
             fix_crc(&mut b);
             log_reject(tr, "truncated", &b);
+            log_parse(tr, "truncated", &b[..b.len() - 4]);
         }
         if n < 1472 {
             let mut b = bytes.clone();
@@ -218,6 +258,7 @@ pub fn run_codec(tr: &mut Trace, run: u64, seed: u64, vectors: Option<&str>) {
             b.splice(at..at, (0..extra).map(|_| r.next() as u8));
             fix_crc(&mut b);
             log_reject(tr, "extended", &b);
+            log_parse(tr, "extended", &b[..b.len() - 4]);
         }
         {
             let mut b = bytes.clone();
@@ -228,12 +269,22 @@ pub fn run_codec(tr: &mut Trace, run: u64, seed: u64, vectors: Option<&str>) {
             b[0] = t;
             fix_crc(&mut b);
             log_reject(tr, "unknown-type", &b);
+            log_parse(tr, "unknown-type", &b[..b.len() - 4]);
         }
         if let uv::Frame::HandshakeErrorFrame(_) = f {
             let mut b = bytes.clone();
             b[5] = r.range(3, 255) as u8;
             fix_crc(&mut b);
             log_reject(tr, "bad-enum", &b);
+            log_parse(tr, "bad-enum", &b[..b.len() - 4]);
+        }
+        for _ in 0..2 {
+            // one byte of the genuine frame replaced (headers more often than payloads), CRC recomputed: the decoder
+            // sees another frame, well-formed or not; Decode decides which
+            let mut b = bytes[..n - 4].to_vec();
+            let at = if r.chance(2, 3) { r.below(b.len().min(24) as u64) as usize } else { r.below(b.len() as u64) as usize };
+            b[at] = match r.below(4) { 0 => b[at].wrapping_add(1), 1 => b[at].wrapping_sub(1), 2 => b[at] ^ (1 << r.below(8)), _ => r.next() as u8 };
+            log_parse(tr, "byte-mutated", &b);
         }
         for _ in 0..3 {
             let mut b = bytes.clone();
@@ -316,6 +367,7 @@ pub fn run_codec(tr: &mut Trace, run: u64, seed: u64, vectors: Option<&str>) {
                 b[10] = r.below(3) as u8;
             }
             fix_crc(&mut b);
+            log_parse(tr, "random", &b[..b.len() - 4]);
         }
         log_reject(tr, "random", &b);
     }
